@@ -99,15 +99,8 @@ Definition raw_or_p (c : case) (sel : list bool) (s1 s2 : list Z) : Q * Q :=
 (* SPEC of "internal gaps only": the columns where either row is still in its leading run of
    non-nucleotides, or already in its trailing one, are left out; on the others every gap against a
    nucleotide counts (independent of the code's running accumulators) *)
-Fixpoint lead_nonnuc (s : list Z) : nat :=
-  match s with a :: t => if is_nuc a then O else S (lead_nonnuc t) | [] => O end.
 Definition spec_internal (c : case) (s1 s2 : list Z) : Q * Q :=
-  let rm := if Z.eqb (k_model c) 1 then k_rmamb c else false in
-  let L := length s1 in
-  let lead := Nat.max (lead_nonnuc s1) (lead_nonnuc s2) in
-  let trail := Nat.max (lead_nonnuc (rev s1)) (lead_nonnuc (rev s2)) in
-  let mask := map (fun i => Nat.leb lead i && Nat.ltb i (L - trail)) (seq 0 L) in
-  count_diffs_gaps s1 s2 mask (k_weights c) rm.
+  count_diffs_internal_spec s1 s2 (k_weights c) (if Z.eqb (k_model c) 1 then k_rmamb c else false).
 
 (* a raw (model 0) or p-distance (model 1) entry against exact counts (d, t) *)
 Definition exact_entry_ok (c : case) (f : fl) (dt : Q * Q) : bool :=
